@@ -77,6 +77,38 @@ PROPS = {
         trusted_base=[GO_LIBS, "net/http, encoding/json", "fake BESS server (harness/internal/sysh/bess.go)"],
         assumptions=["BESS datapath for the black-box part"],
     ),
+    "C09": dict(
+        lean=["Upf.Props.C09"],
+        level="proof",
+        claim="BESS part proved for all rates / burst configurations / rule sets: closed gate drops; open gate with GBR <= MBR < 2^40 is metered with "
+              "peak = MBR x 125 and committed = max(GBR x 125, 1) whatever the other direction left behind; both zero unmetered; burst = exactly "
+              "floor(rate x duration / 8) and >= the configured minimum; a QER labelled session-wide by a marking call is referenced by every PDR, at most "
+              "one per call. The history clause (never re-labelled) is FALSE for the code: theorem mark_stable_fails + open known finding. "
+              "UP4 clauses (gate -> drop action, QFI -> TC) are checked with C04.",
+        note="partial: the re-labelling clause is a recorded finding, not a theorem; the UP4 side is with C04. Trusted: Lean kernel + standard axioms, "
+             "go-pfcp codecs, fake BESS server, the hand transcription of addQER (validated by every QoS entry of the run).",
+        rule="burst grid (15+ boundary rates + random of three shapes x 16 durations); MarkSessionQer on ALL assignments of 13 QER-list shapes to 0..3 PDRs x 10 QER sets "
+             "(exhaustive over that shape space); system level: sessions with 1-3 QERs from 11 boundary rates, both gates, 4 QFIs, GBR classes, under two burst "
+             "configurations, with QER updates; non-trivial = a QER marked / an accepted request / a distinct burst case",
+        trusted_base=[GO_LIBS, "go-pfcp IE codecs", "fake BESS server"],
+        assumptions=["rates within PFCP's 40-bit fields", "GBR <= MBR for the exact-rate clauses (as the property states)"],
+    ),
+    "C03": dict(
+        lean=["Upf.Props.C03"],
+        level="proof",
+        claim="Packet level: for ALL packets, some written pdrLookup entry matches iff the PDR denotes the packet (on top of C17); priorities ordered as precedence. "
+              "Table level: establishment/deletion commands turn image(store) into image(store') on keyed tables; disjoint-key commands commute. "
+              "Agent level: executable model of establish/modify/delete + MarkSessionQer + bess.go command stream, tied to the REAL agent (child process, public API) "
+              "by trace acceptance: after every response the harness BESS server's tables must equal the model's and the image of the live sessions; "
+              "restart after SIGKILL must leave the four lookup modules empty.",
+        note="partial: the image refinement is proved on the reduced table model, the full agent model is tied by T2 only; BESS itself is a table model "
+             "(semantics of pkg/fake_bess). Envelope: IPv4, distinct rule IDs per session, distinct match keys of live PDRs, key-preserving updates.",
+        rule="rounds of: seeded leftovers, start, two associations, a random history of 4-13 requests (establish 8 session shapes incl. SDF/app filters, CHOOSE F-TEID, UE-IP "
+             "allocation, buffering FARs; handover with/without end marker; create/update/remove rules; unknown session; wrong node ID; CP F-SEID change), then SIGKILL; "
+             "non-trivial = an accepted request",
+        trusted_base=[GO_LIBS, "go-pfcp IE codecs", "fake BESS server (harness/internal/sysh/bess.go)", "loopback UDP/gRPC"],
+        assumptions=["IPv4 only", "distinct live PDRs have distinct match keys", "an Update PDR/QER does not change the rule's table key"],
+    ),
 }
 
 NOT_APPLICABLE = {}
